@@ -9,8 +9,9 @@ import pandas as pd
 from .. import proto
 from ..core import Check, Problem, register
 from . import c06
-from .c06 import (MOMENTS, LOSS_RANGES, costs_ok, fl, gen_bounds, gen_dataset, index_keys, make_inputs, make_moment,
-                  make_predictor, spec_config, spec_err, spec_loss, spec_order, spec_parity, strata_stats)
+from .c06 import (MOMENTS, LOSS_RANGES, costs_ok, demote_harness, fl, gen_bounds, gen_dataset, history_tag, index_keys, make_inputs,
+                  make_moment, make_predictor, previous_life, spec_config, spec_err, spec_loss, spec_order, spec_parity,
+                  strata_stats, with_history)
 
 # measured on the clean tree (review R1, quick tier seed 0, 1508 cases): max |a-b|/(1+|b|+scale) over every `near`
 # comparison = 5.2e-16; sample weights handed to the learner vs exact model: 7.3e-14 relative (`W_CMP_TOL`); whole-fit
@@ -181,6 +182,9 @@ class CHECK(Check):
 
     # ------------------------------------------------------------------ generation
     def generate(self, rng, tier):
+        return with_history(self._generate(rng, tier), rng)
+
+    def _generate(self, rng, tier):
         while True:
             r = rng.random()
             if r < 0.84:
@@ -306,7 +310,7 @@ class CHECK(Check):
         out = {"ratio": float(m.ratio), "eps": float(m.eps)}
         if kind == "parity":
             m.load_data(X, y, **kw)
-            obj = red.ErrorRate(costs={"fp": fl(case["fp"]), "fn": fl(case["fn"])})
+            obj = previous_life(red.ErrorRate(costs={"fp": fl(case["fp"]), "fn": fl(case["fn"])}), case)
             obj.load_data(X, y, **kw)
             out["index"] = index_keys(m.index)
             lam_s, lam = self._lam_series(case, m.index)
@@ -339,13 +343,13 @@ class CHECK(Check):
         out["index"] = index_keys(probe.index)
         lam_s, lam = self._lam_series(case, probe.index)
         out["sw"] = [float(v) for v in probe.signed_weights(lam_s).values]
-        pobj = red.ErrorRate(costs={"fp": fl(case["fp"]), "fn": fl(case["fn"])})
+        pobj = previous_life(red.ErrorRate(costs={"fp": fl(case["fp"]), "fn": fl(case["fn"])}), case)
         pobj.load_data(X, y, **kw)
         out["ow"] = [float(v) for v in pobj.signed_weights().values]
         del RECORD[:]
         if kind == "eg":
             from fairlearn.reductions._exponentiated_gradient._lagrangian import _Lagrangian
-            obj = red.ErrorRate(costs={"fp": fl(case["fp"]), "fn": fl(case["fn"])})
+            obj = previous_life(red.ErrorRate(costs={"fp": fl(case["fp"]), "fn": fl(case["fn"])}), case)
             lag = _Lagrangian(X=X, y=y, estimator=Recorder(), constraints=m, B=10.0, objective=obj, **kw)
             try:
                 est = lag._call_oracle(lam_s)
@@ -394,7 +398,7 @@ class CHECK(Check):
             ckw["difference_bound"] = fl(case["db"])
         if case["rb"] is not None:
             ckw["ratio_bound"], ckw["ratio_bound_slack"] = fl(case["rb"]), fl(case["slack"])
-        spy = Spy(**ckw)
+        spy = previous_life(Spy(**ckw), case)
         probe = base(**ckw)
         probe.load_data(X, y, **kw)
         if len(probe.index) == 0:
@@ -405,7 +409,7 @@ class CHECK(Check):
         del RECORD[:]
         del EVENTS[:]
         if case["algo"] == "eg":
-            obj = red.ErrorRate(costs={"fp": fl(case["fp"]), "fn": fl(case["fn"])})
+            obj = previous_life(red.ErrorRate(costs={"fp": fl(case["fp"]), "fn": fl(case["fn"])}), case)
             est = red.ExponentiatedGradient(Recorder(), spy, objective=obj, max_iter=case["iters"])
         else:
             est = red.GridSearch(Recorder(), spy, grid_size=case["iters"])
@@ -429,7 +433,7 @@ class CHECK(Check):
         lo, hi = fl(case["lo"]), fl(case["hi"])
         mk = {"square": lambda: red.SquareLoss(lo, hi), "absolute": lambda: red.AbsoluteLoss(lo, hi),
               "zeroone": lambda: red.ZeroOneLoss()}[case["loss"]]
-        m = red.BoundedGroupLoss(mk(), upper_bound=0.5)
+        m = previous_life(red.BoundedGroupLoss(mk(), upper_bound=0.5), case)
         kind = case["kind"]
         probe = red.BoundedGroupLoss(mk(), upper_bound=0.5)
         probe.load_data(X, y, sensitive_features=sf)
@@ -540,6 +544,10 @@ class CHECK(Check):
 
     # ------------------------------------------------------------------ judging
     def judge(self, case, o, mo):
+        return demote_harness(self._judge(case, o, mo), getattr(self, "module", None) or "FairModel.Properties.C07",
+                              "C07.generated-model-vs-spec")
+
+    def _judge(self, case, o, mo):
         if "crash" in o:
             return [Problem("correspondence", f"implementation crashed: {o}", "impl-total")]
         model = None
@@ -991,7 +999,7 @@ class CHECK(Check):
     # ------------------------------------------------------------------ bookkeeping
     def signature(self, case, o):
         kind = case["kind"]
-        tags = [f"kind={kind}", f"lam={case['lam_kind']}"]
+        tags = [f"kind={kind}", f"lam={case['lam_kind']}", history_tag(case)]
         n = len(case["y"])
         tags.append(f"n={'2-6' if n <= 6 else '7-12' if n <= 12 else '13-30'}")
         nontriv = True
